@@ -17,7 +17,9 @@ struct async_worker_s {
     pthread_t thread;
     async_worker_proc_t proc;
     void* context;
-    volatile async_worker_state_t state;
+    /* written by the worker thread, read by join/get_state on other threads:
+     * atomic (volatile alone leaves a C11 data race) */
+    _Atomic async_worker_state_t state;
     bool thread_created;
     platform_event_t stop_event;
 };
